@@ -3,6 +3,10 @@ import HappyProofs.C15.Survive
 import HappyProofs.C15.Judge
 import HappyProofs.C15.Ack
 import HappyProofs.C15.Phases
+import HappyProofs.C15.PhasesLight
+import HappyProofs.C15.PhasesLight2
+import HappyProofs.C15.PhasesLight3
+import HappyProofs.C15.PhasesLight4
 import HappyProofs.C14.LsmFinal
 /-!
 # C15 — property theorems (WAL + crash recovery)
@@ -368,5 +372,93 @@ example : judgePhases false 3 (List.replicate 3 none) [] 0 (mcTamper [some 7, so
     judgePhases false 3 (List.replicate 3 none) [] 0 (mcTamper [some 13, some 11, some 12]) = none ∧
     (judgePhases false 3 (List.replicate 3 none) [] 0 (mcTamper [some 7, some 8, some 12])).isSome = true := by
   refine ⟨by decide, by decide, by decide, by decide, by decide⟩
+
+/-! ### sequences of crashes, every phase: no flush / compaction install after the first crash -/
+
+/-- `multi_crash_spec_full` under the extra hypothesis `NoInstall` for the phases after the first crash: the Spec
+    predicate for sequences of crashes accepts the model's own observations of EVERY phase.  The first phase is
+    arbitrary (flushes, truncation, compactions: `multi_crash_first_phase`); in the later phases memtables may be
+    frozen (`flushStart`) but no flush install / compaction install segment executes, so the SSTable levels are
+    constant and the log only grows (`PInv`, `later_phase_facts`, `later_phase_judge` in `PhasesLight*.lean`). -/
+theorem multi_crash_spec_partial (cfg : Cfg) (p : Policy) (nkeys : Nat) (ops : List (Nat × OKind)) (oracle : List Bool)
+    (ps : List (List Nat)) (every : Bool)
+    (hw : cfg.wal = some p) (h2 : 2 ≤ cfg.maxLevels) (hd : DistinctPuts ops) (_hid : ∀ o ∈ ops, o.1 < baselineId 0)
+    (hph : ∀ ys ∈ phaseStarts cfg (sysOf cfg oracle ops) ps,
+      InOrder cfg ys.1 ys.2 ∧ syncsInOrderB cfg ys.1 ys.2 = true ∧ ∀ f ∈ ys.1.frames, f.id ∈ ys.2 → f.b = none)
+    (hni : ∀ ys ∈ (phaseStarts cfg (sysOf cfg oracle ops) ps).tail, NoInstall cfg ys.1 ys.2)
+    (he : every = true → cfg.wal = some .every) :
+    judgePhases every nkeys (List.replicate nkeys none) [] 0
+      (obsOfPhases ops nkeys [] (runPhases cfg (sysOf cfg oracle ops) ps)) = none := by
+  cases ps with
+  | nil => rfl
+  | cons sched rest =>
+    have h0 := hph (sysOf cfg oracle ops, sched) (by simp [phaseStarts])
+    have hj := multi_crash_first_phase cfg p nkeys ops oracle sched every hw h2 hd h0.1 h0.2.1 he
+    rw [← obsOf_nil_prev ops nkeys] at hj
+    simp only [runPhases, obsOfPhases, judgePhases]
+    rw [if_neg (by simp [obsOf, readsOf])]
+    have hj' : judgePhase every (List.replicate nkeys none) [] (obsOf ops nkeys [] (phaseOut cfg (sysOf cfg oracle ops) sched)).ws
+        (obsOf ops nkeys [] (phaseOut cfg (sysOf cfg oracle ops) sched)).syncDone
+        (obsOf ops nkeys [] (phaseOut cfg (sysOf cfg oracle ops) sched)).synced
+        (obsOf ops nkeys [] (phaseOut cfg (sysOf cfg oracle ops) sched)).r1
+        (obsOf ops nkeys [] (phaseOut cfg (sysOf cfg oracle ops) sched)).r2
+        (obsOf ops nkeys [] (phaseOut cfg (sysOf cfg oracle ops) sched)).r3 = none := hj
+    rw [hj']
+    simp only
+    have hA : AInv cfg (startFor ops) (phaseOut cfg (sysOf cfg oracle ops) sched).next
+        (syncDoneRun cfg (sysOf cfg oracle ops) [] sched).2 := by
+      rw [next_eq]
+      exact ainv_recovered (ainv_sysOf_run cfg ops oracle sched hd.1 h0.2.1)
+    exact judgePhases_later nkeys every hw hd he rest (phaseOut cfg (sysOf cfg oracle ops) sched).next _ _ _
+      (kstart_first oracle sched hw h2 hd h0.1) hA
+      (fun ys hys =>
+        ⟨(hph ys (by simp only [phaseStarts]; exact List.mem_cons_of_mem _ hys)).2.1,
+         (hph ys (by simp only [phaseStarts]; exact List.mem_cons_of_mem _ hys)).2.2,
+         hni ys (by simpa only [phaseStarts, List.tail_cons] using hys)⟩)
+
+/-- Boolean form of the per-phase hypotheses -/
+theorem phase_hyps_of_B {cfg : Cfg} {y : Sys} {ps : List (List Nat)}
+    (h : (phaseStarts cfg y ps).all (fun ys =>
+      inOrderB cfg ys.1 ys.2 && syncsInOrderB cfg ys.1 ys.2 &&
+      ys.1.frames.all fun f => !ys.2.contains f.id || f.b.isNone) = true) :
+    ∀ ys ∈ phaseStarts cfg y ps,
+      InOrder cfg ys.1 ys.2 ∧ syncsInOrderB cfg ys.1 ys.2 = true ∧ ∀ f ∈ ys.1.frames, f.id ∈ ys.2 → f.b = none := by
+  intro ys hys
+  have h1 := List.all_eq_true.mp h ys hys
+  simp only [Bool.and_eq_true] at h1
+  obtain ⟨⟨a, b⟩, c⟩ := h1
+  refine ⟨inOrder_of_B a, b, ?_⟩
+  intro f hf hin
+  have := List.all_eq_true.mp c f hf
+  simp only [Bool.or_eq_true, Bool.not_eq_true', Option.isNone_iff_eq_none] at this
+  rcases this with h | h
+  · rw [← List.contains_iff_mem] at hin
+    rw [hin] at h
+    cases h
+  · exact h
+
+/-- non-vacuity of `multi_crash_spec_partial`: the lossy first crash of `mcSched1` (the entry of operation 3 is
+    dropped, `next_sequence` stays 4), then a second phase in which operation 1002 freezes the full memtable
+    (`flushStart`) but its install never runs before the second crash; operation 1003 writes into the new memtable
+    without a sync.  All hypotheses hold; the theorem applies. -/
+def mcSched2n : List Nat := [1001, 1001, 1001, 1002, 1002, 1002, 1002, 1003, 1003, 1003]
+
+example : (phaseStarts mcCfg (sysOf mcCfg [] mcOps) [mcSched1, mcSched2n]).tail.all
+      (fun ys => noInstallB mcCfg ys.1 ys.2) = true ∧
+    (mcO1.next.run mcCfg mcSched2n).st.imms.length = 1 ∧
+    (mcO1.next.run mcCfg mcSched2n).st.wal.map (·.seq) = [4, 5, 6] ∧
+    (mcO1.next.run mcCfg mcSched2n).st.synced = 5 ∧
+    readsOf 3 mcO1.s3 = [some 7, some 8, none] ∧
+    readsOf 3 (phaseOut mcCfg mcO1.next mcSched2n).s3 = [some 7, some 11, some 12] := by
+  refine ⟨by decide, by decide, by decide, by decide, by decide, by decide⟩
+
+example : judgePhases false 3 (List.replicate 3 none) [] 0
+    (obsOfPhases mcOps 3 [] (runPhases mcCfg (sysOf mcCfg [] mcOps) [mcSched1, mcSched2n])) = none := by
+  refine multi_crash_spec_partial mcCfg (.batch 2) 3 mcOps [] [mcSched1, mcSched2n] false rfl (by decide)
+    ⟨by decide, by decide⟩ (by decide) (phase_hyps_of_B (by decide)) ?_ (fun h => by cases h)
+  intro ys hys
+  have h : (phaseStarts mcCfg (sysOf mcCfg [] mcOps) [mcSched1, mcSched2n]).tail.all
+      (fun ys => noInstallB mcCfg ys.1 ys.2) = true := by decide
+  exact noInstall_of_B (List.all_eq_true.mp h ys hys)
 
 end HappyModel.C15
